@@ -40,6 +40,7 @@ type c17Inner struct {
 	cenc     string
 	setCL    bool
 	interim  bool // an informational 103 is relayed before the content headers are known (as the reverse proxy does)
+	reheader bool // after the first chunk the handler changes the content headers and calls WriteHeader again (http.Error half way)
 }
 
 func (in c17Inner) ServeHTTP(w http.ResponseWriter, r *http.Request) {
@@ -62,7 +63,12 @@ func (in c17Inner) ServeHTTP(w http.ResponseWriter, r *http.Request) {
 		w.WriteHeader(in.status)
 	}
 	off := 0
-	for _, n := range in.chunks {
+	for i, n := range in.chunks {
+		if in.reheader && i == 1 {
+			w.Header().Set("Content-Type", "text/plain; charset=utf-8")
+			w.Header().Del("Content-Encoding")
+			w.WriteHeader(http.StatusInternalServerError)
+		}
 		w.Write(in.body[off : off+n])
 		off += n
 		if vsched.Active() {
@@ -127,7 +133,7 @@ func c17Accepts(ae string) bool {
 
 func TestVerifC17Inputs(t *testing.T) {
 	L := ev.Begin("C17", "c17-inputs", "exploration",
-		"inner handler matrix body {empty, 1B, 512B text, 100kB text, already-gzipped} x every chunking class into <=3 writes x explicit/implicit WriteHeader x status {200,201,404,500 (+204,304 bodiless)} x Content-Type {matching, matching+charset, non-matching, absent(sniffed)} x Content-Encoding {none,gzip,br,zstd,aes128gcm} x Content-Length {absent,correct} x request Accept-Encoding {none,gzip,'gzip, deflate',br,identity,'gzip;q=0' and upper-case spellings of it} x an interim 103 before the final status x Accept {*/*, text/event-stream}, served through a real http.Server; oracle: compressed only if the three conditions hold, then labelled, no stale Content-Length, gunzip == inner bytes; otherwise body and headers byte-identical; status always preserved. non-trivial = response with a body")
+		"inner handler matrix body {empty, 1B, 512B text, 100kB text, already-gzipped} x every chunking class into <=3 writes x explicit/implicit WriteHeader x status {200,201,404,500 (+204,304 bodiless)} x Content-Type {matching, matching+charset, non-matching, absent(sniffed)} x Content-Encoding {none,gzip,br,zstd,aes128gcm} x Content-Length {absent,correct} x request Accept-Encoding {none,gzip,'gzip, deflate',br,identity,'gzip;q=0' and upper-case spellings of it} x an interim 103 before the final status x a second WriteHeader with changed content headers after the first chunk x Accept {*/*, text/event-stream}, served through a real http.Server; oracle: compressed only if the three conditions hold, then labelled, no stale Content-Length, gunzip == inner bytes; otherwise body and headers byte-identical; status always preserved. non-trivial = response with a body")
 	bodies := [][]byte{nil, []byte("x"), c17Text(512), c17Text(100 * 1024), c17Gz(c17Text(2000))}
 	ctypes := []string{"text/plain", "text/html; charset=utf-8", "application/json", "image/png", ""}
 	cencs := []string{"", "gzip", "br", "zstd", "aes128gcm"}
@@ -162,9 +168,12 @@ func TestVerifC17Inputs(t *testing.T) {
 										if !ev.Thorough() && bi == 3 && (ae == "br" || ae == "identity" || ac != "*/*") {
 											continue
 										}
-										jobs = append(jobs, job{c17Inner{b, ch, explicit, st, ct, ce, cl, false}, ae, ac, "GET"})
+										jobs = append(jobs, job{c17Inner{b, ch, explicit, st, ct, ce, cl, false, false}, ae, ac, "GET"})
+										if len(ch) >= 2 && ch[0] > 0 && !cl && st == 200 {
+											jobs = append(jobs, job{c17Inner{b, ch, explicit, st, ct, ce, cl, false, true}, ae, ac, "GET"})
+										}
 										if explicit && bi == 2 && len(ch) == 1 && !cl {
-											jobs = append(jobs, job{c17Inner{b, ch, explicit, st, ct, ce, cl, true}, ae, ac, "GET"})
+											jobs = append(jobs, job{c17Inner{b, ch, explicit, st, ct, ce, cl, true, false}, ae, ac, "GET"})
 										}
 									}
 								}
@@ -224,7 +233,7 @@ func TestVerifC17Inputs(t *testing.T) {
 				got, gotBody := do(srv.URL)
 				ref, refBody := do(plain.URL)
 				L.Case()
-				d := map[string]interface{}{"inner": fmt.Sprintf("status=%d explicit=%v ctype=%q cenc=%q cl=%v body=%d chunks=%v interim103=%v", j.in.status, j.in.explicit, j.in.ctype, j.in.cenc, j.in.setCL, len(j.in.body), j.in.chunks, j.in.interim),
+				d := map[string]interface{}{"inner": fmt.Sprintf("status=%d explicit=%v ctype=%q cenc=%q cl=%v body=%d chunks=%v interim103=%v second-writeheader=%v", j.in.status, j.in.explicit, j.in.ctype, j.in.cenc, j.in.setCL, len(j.in.body), j.in.chunks, j.in.interim, j.in.reheader),
 					"accept_encoding": j.ae, "accept": j.accept, "got_status": got.StatusCode, "got_headers": got.Header, "got_len": len(gotBody)}
 				if len(j.in.body) > 0 {
 					L.NontrivialKey(fmt.Sprint(i))
